@@ -344,6 +344,23 @@ def check_C04(run: Run):
         if p_ == sorted(p_): p_ = p_[1:] + p_[:1]
         r0 = O.impl_map(p_, c)
         if r0["err"] is None: cases.append({"c": r0["c"], "via": "map"})
+    # real parameters given as Python integers (Float(1), Float(-2), Float(0)) are written and read back like 1.0, -2.0, 0.0
+    from opensquirrel import CircuitBuilder as _CB4
+    from opensquirrel.ir import Float as _F4
+    for iv in (1, -2, 0, 3, 100):
+        for nm_ in ("Rx", "Rz", "CR"):
+            bb_ = _CB4(2)
+            run.count({"int-valued-float": iv, "gate": nm_}, tag="int-param")
+            try:
+                (bb_.CR(0, 1, _F4(iv)) if nm_ == "CR" else getattr(bb_, nm_)(1, _F4(iv)))
+                c_ = bb_.to_circuit(); txt_ = str(c_)
+            except Exception as ex:
+                run.violation(f"{nm_}(Float({iv})) cannot be built and written: {O.err_name(ex)}", {"gate": nm_, "value": iv}); continue
+            back_ = O.impl_parse(txt_)
+            if back_["err"] is not None: run.violation(f"{nm_}(Float({iv})) is written as text the parser rejects", {"text": txt_}); continue
+            if W.diff(back_["v"]["stmts"], W.w_circuit(c_)["stmts"], 1e-12): run.violation(f"{nm_}(Float({iv})) does not survive the round trip", {"text": txt_})
+            e1_ = O.impl_exportv1(None, circ=c_)
+            if e1_["err"] is not None: run.violation(f"{nm_}(Float({iv})) cannot be exported to cQASM 1 ({e1_['err']})", {"gate": nm_, "value": iv})
     # a statement object occurring several times (what a replace callback returning [h, cz, h] produces), mapped, then written:
     # the text must name the qubits the statements act on
     for _ in range(run.n(25, 300)):
@@ -497,6 +514,30 @@ def v1_line_qubits(text):
 
 def check_C12(run: Run):
     rng = random.Random(run.seed * 19 + 23); g = G.Gen(rng)
+    # the line form holds for any named gate, also a user's whose generator lists a parameter before or between its qubits:
+    # lower-cased name, the qubits, then the parameters
+    from opensquirrel import CircuitBuilder as _CB12
+    from opensquirrel.default_gates import default_gate_set as _dgs12
+    from opensquirrel.ir import Float as _F12
+    fam12 = user_gate_family()
+    for name_, (f_, kinds_) in sorted(fam12.items()):
+        n_ = 4; qs_ = rng.sample(range(n_), kinds_.count("q")); it_ = iter(qs_)
+        args_ = [next(it_) if k_ == "q" else (_F12(round(rng.uniform(0.1, 3.0), 3)) if k_ == "f" else rng.randint(1, 5)) for k_ in kinds_]
+        bb_ = _CB12(n_, gate_set=[*_dgs12, f_])
+        run.count({"user-gate-v1": name_}, tag="user-gate")
+        try:
+            getattr(bb_, name_)(*args_)
+            e_ = O.impl_exportv1(None, circ=bb_.to_circuit())
+        except Exception as ex:
+            run.violation(f"user gate {name_}: building / exporting raised {O.err_name(ex)}", {"gate": name_}); continue
+        if e_["err"] is not None: run.violation(f"user gate {name_}: cQASM 1 export refused ({e_['err']})", {"gate": name_}); continue
+        line_ = [l for l in e_["v"].split("\n") if l.startswith(name_.lower() + " ")]
+        qtxt = ", ".join(f"q[{a}]" for a, k_ in zip(args_, kinds_) if k_ == "q")
+        ntok = [k_ for k_ in kinds_ if k_ != "q"]
+        if len(line_) != 1: run.violation(f"user gate {name_}: no line '{name_.lower()} ...' in the export", {"gate": name_, "text": e_["v"]}); continue
+        rest_ = line_[0][len(name_) + 1:]
+        if not rest_.startswith(qtxt) or len([t for t in rest_[len(qtxt):].split(",") if t.strip()]) != len(ntok) or "q[" in rest_[len(qtxt):]:
+            run.violation(f"user gate {name_}: exported as {line_[0]!r}, expected the name, the qubits {qtxt}, then {len(ntok)} parameter(s)", {"gate": name_, "line": line_[0]})
     # the exported line names the qubits the statement actually acts on - also for statement objects occurring twice, after map
     for _ in range(run.n(25, 300)):
         n = rng.randint(2, 4); p = list(range(n)); rng.shuffle(p)
